@@ -131,6 +131,9 @@ func NewDriver(
 	}
 
 	d := &Driver{
+		// options.WithLogger / WithDefaultLogger apply to the generic driver, use the same logging
+		// instance here so that the rpc level messages reach the user's logger too
+		Logger:        gd.Logger,
 		TransportType: gd.TransportType,
 		Transport:     gd.Transport,
 		Channel:       gd.Channel,
